@@ -178,21 +178,22 @@ struct Runner {
   int n;
   std::vector<Val> srcVals;
 
-  void setup(int len) {
-    n = len;
-    src = static_cast<T *>(g_heap.allocate((size_t)(len ? len : 1) * sizeof(T), 0, 0, DOM_STD, false));
+  int extra;  // source elements beyond the n the algorithm is asked to process (a stream does not end where the caller stops reading)
+  void setup(int len, int extraTail = 0) {
+    n = len; extra = extraTail;
+    src = static_cast<T *>(g_heap.allocate((size_t)(len + extra ? len + extra : 1) * sizeof(T), 0, 0, DOM_STD, false));
     dst = static_cast<T *>(g_heap.allocate((size_t)(len ? len : 1) * sizeof(T), 0, 0, DOM_STD, false));
     srcVals.clear();
-    for (int i = 0; i < len; ++i) { ::new ((void *)(src + i)) T(10 + i, 100 + i); srcVals.push_back(Val{10 + i, 100 + i}); }
+    for (int i = 0; i < len + extra; ++i) { ::new ((void *)(src + i)) T(10 + i, 100 + i); srcVals.push_back(Val{10 + i, 100 + i}); }
   }
   void release_blocks() {
-    g_heap.deallocate(src, (size_t)(n ? n : 1) * sizeof(T), 0, 0, DOM_STD, true);
+    g_heap.deallocate(src, (size_t)(n + extra ? n + extra : 1) * sizeof(T), 0, 0, DOM_STD, true);
     g_heap.deallocate(dst, (size_t)(n ? n : 1) * sizeof(T), 0, 0, DOM_STD, true);
   }
   static bool alive(const T &e) { int s = T::state_of(e); return s == ES_ALIVE || s == ES_MOVED; }
   // destroy whatever the harness still owns
   void destroy_sources(int from = 0) {
-    for (int i = from; i < n; ++i) if (alive(src[i])) src[i].~T();
+    for (int i = from; i < n + extra; ++i) if (alive(src[i])) src[i].~T();
   }
   void check_dst_values(int count, const char *what) {
     for (int i = 0; i < count; ++i) {
@@ -249,6 +250,8 @@ struct Runner {
     G.armed = false; G.faultKind = F_NONE;
     bool reloc = c.algo == A_URELOC || c.algo == A_URELOC_N;
     bool moves = reloc || c.algo == A_UMOVE || c.algo == A_UMOVE_N || c.iter == I_MOVE;
+    for (int i = n; i < n + extra && g_fail.empty(); ++i)
+      if (T::state_of(src[i]) != ES_ALIVE || src[i].k() != srcVals[i].key) fail("single-pass input range: elements beyond the n-th were consumed or modified");
     if (!threw) {
       if (c.throwIdx >= 0 && G.faultFired) fail("fault fired but no exception propagated");
       if (ret != dst + n) fail("returned destination iterator is not dest + n");
@@ -282,7 +285,9 @@ struct Runner {
   }
 
   void run_case(const Case &c) {
-    setup(c.len);
+    // the counted algorithms on a single-pass stream: the stream continues after the n-th element
+    bool counted = c.algo == A_UCOPY_N || c.algo == A_UMOVE_N;
+    setup(c.len, (c.iter == I_INPUT && counted) ? 3 : 0);
     long live0 = g_elems.liveArmed;
     bool threw = false;
     switch (c.algo) {
@@ -378,8 +383,9 @@ struct Runner {
           case I_BIDI: run_range_algo(c, WrapIt<T, std::bidirectional_iterator_tag>(src)); break;
           case I_FWD: run_range_algo(c, WrapIt<T, std::forward_iterator_tag>(src)); break;
           case I_INPUT: {
-            MStream<T> st(src, (size_t)n);
+            MStream<T> st(src, (size_t)(n + extra));
             run_range_algo(c, MInputIt<T>(&st));
+
             if (g_fail.empty() && st.rereads) fail("single-pass input range: an element was read twice");
             if (g_fail.empty() && st.readsAfterEof) fail("single-pass input range: read past its end");
             if (g_fail.empty() && !G.faultFired && st.cursor != (size_t)n) fail("single-pass input range: not exactly n elements were consumed");
